@@ -734,10 +734,17 @@ impl BufferedDatabaseWriter {
             crate::verif::crash_point("after_msg");
         }
         //at the end of the batch, update the daily log with all room dates that needs to be recomputed
-        daily_log.write(conn)?;
+        if let Err(e) = daily_log.write(conn) {
+            conn.execute("ROLLBACK", [])?;
+            return Err(e);
+        }
         #[cfg(discret_verif)]
         crate::verif::fault_point("before_commit")?;
-        conn.execute("COMMIT", [])?;
+        if let Err(e) = conn.execute("COMMIT", []) {
+            //a failed COMMIT leaves the transaction open
+            let _ = conn.execute("ROLLBACK", []);
+            return Err(e);
+        }
         #[cfg(discret_verif)]
         crate::verif::crash_point("after_commit");
 
